@@ -116,6 +116,9 @@ def discrete_specs(tier):
     for lik in ("none", "mean", "mixture"):
         specs.append({"prior": "bernoulli", "support": [0, 1], "probs": [0.7, 0.02], "explicit": None, "lik": lik})
     specs.append({"prior": "bernoulli", "support": [0, 1], "probs": [0.7, 0.02], "explicit": [0, 1], "lik": "mean"})
+    # an integer-valued current value with a fractional outcome grid (extracted and explicit)
+    specs.append({"prior": "finite", "support": [0.5, 1.0, 2.0], "probs": PROBS[3][:2], "explicit": None, "lik": "mean", "z_int": 1})
+    specs.append({"prior": "finite", "support": [0.5, 1.0, 2.0], "probs": PROBS[3][:2], "explicit": [0.5, 1.0, 2.0], "lik": "none", "z_int": 1})
     # the variable enters through the value of a weak variable with a distribution
     specs.append({"prior": "finite", "support": [0.0, 1.0, 2.0], "probs": PROBS[3], "explicit": None, "lik": "resid"})
     specs.append({"prior": "finite", "support": [-1.0, 2.5], "probs": PROBS[2][:2], "explicit": None, "lik": "resid"})
@@ -276,6 +279,9 @@ def run_tau2(res: core.UnitResult, u: dict):
         settings.append((a0, u["bs"][1], None, ref.reweighted(K0), [all_betas[1], all_betas[4]], "state-K-same-rank"))
     # ... and of a different rank, together with the rank hyper-parameter
     settings.append((a0, u["bs"][1], 1, ref.rank_one(K0), [all_betas[1], all_betas[4]], "state-K-rank-one"))
+    # scales at which the full conditional sits far outside [float32 eps, 1/eps]: the draw is still b*/gamma
+    settings.append((a0, 1e-9, None, None, [all_betas[0]], "state-b-tiny"))
+    settings.append((a0, b0, None, None, [(len(all_betas), [1e4 * v for v in all_betas[4][1]])], "state-beta-huge"))
     rank_dtype = np.asarray(group["rank"].value).dtype
 
     for si, (a, b, rank_state, K_state, betas, how) in enumerate(settings):
@@ -424,7 +430,8 @@ def build_discrete_model(spec, theta):
     if spec["prior"] == "finite":
         grid = lsl.Var(jnp.asarray(spec["support"], jnp.float32), name="grid")
         prior = lsl.Dist(tfd.FiniteDiscrete, outcomes=grid, probs=probs)
-        z = lsl.Var(jnp.asarray(spec["support"][0], jnp.float32), prior, name="z")
+        # "z_int": the variable currently holds a Python int although the outcome grid is fractional
+        z = lsl.Var(int(spec["z_int"]), prior, name="z") if spec.get("z_int") is not None else lsl.Var(jnp.asarray(spec["support"][0], jnp.float32), prior, name="z")
     else:
         prior = lsl.Dist(tfd.Bernoulli, probs=probs)
         z = lsl.Var(jnp.asarray(1, jnp.int32), prior, name="z")
@@ -496,7 +503,15 @@ def run_discrete(res: core.UnitResult, u: dict):
     first: set[str] = set()
 
     model = build_discrete_model(spec, states[0])
-    kernel = finite_discrete_gibbs_kernel("z", model, outcomes=spec["explicit"])
+    auto_before, state_before = model.auto_update, snapshot(model.state)
+    try:
+        kernel = guarded(finite_discrete_gibbs_kernel, "z", model, spec["explicit"])
+    except LieselRaised as e:
+        res.violation("discrete", "kernel-construction-raised", {"spec": spec}, f"finite_discrete_gibbs_kernel raised {e} [spec={spec}]")
+        return
+    if model.auto_update != auto_before or snapshot(model.state) != state_before:
+        res.violation("discrete", "kernel-construction-changes-user-model", {"spec": spec},
+                      f"creating the kernel changed the user's model (auto_update {auto_before} -> {model.auto_update}, state changed: {snapshot(model.state) != state_before}) [spec={spec}]")
     kernel.set_model(gs.LieselInterface(model))
     outcomes = spec["explicit"] if spec["explicit"] is not None else spec["support"]
     n_out = len(outcomes)
@@ -571,6 +586,10 @@ def run_discrete(res: core.UnitResult, u: dict):
             got = check_call(th2, real_states[i2], j, th1)
         res.states += 1
         res.note([i1, i2, None if got is None else np.round(got, 5).tolist()])
+    # states taken from the very model the kernel was created from, after new values were assigned to it
+    for i, th in enumerate(states):
+        assign_theta(model, spec, th)
+        check_call(th, model.state, i % n_out, "same-model")
     res.sample({"kind": "discrete", "spec": spec, "theta": states[-1], "conditional": ref.discrete_conditional(spec, states[-1], outcomes).tolist()}, limit=1)
 
     # jit == eager on real keys, all states
